@@ -1,26 +1,25 @@
 (* C02 — progress: accepted programs run to completion, nothing is left stuck.
-   PROVED (no axioms; hypotheses are explicit premises), connectives with weakening
-   {1, ⊗, ⊸, ⊕, &, ↓, ↑, cut, id, call, print, drop + droppable forwards + GC requests}:
-     * C02_progress_partial : in a typed (spec/RtTyping.v), Topo (spec/Topo.v), quiescent
-       configuration (1) every remaining process is blocked in a receive on its OWN provider
-       channel, of negative type, with an empty open buffer (poised: nobody is stuck sending, nobody
-       waits for a provider, no run-time error is pending); (2) every message left in a buffer is
-       positive; (3) if every channel provided by a remaining process, or by a remaining message
-       that carries channels, has a client object, then no process remains at all.
-       So the survivors are exactly the providers whose chain of clients ends at a top-level channel
-       nobody uses (a poised top-level negative provider, or a top-level result carrying channels
-       that nobody consumes);
+   PROVED (no axioms; hypotheses are explicit premises), every form of the language (connectives,
+   cut, call, print, forward, drop with droppable forwards and GC requests, split and DUP):
+     * C02_progress_partial (asynchronous mode): in a typed (spec/RtTyping.v), Topo (spec/Topo.v),
+       quiescent configuration (1) every remaining process is blocked in a receive on its OWN, single,
+       provider channel, of negative type, with an empty open buffer (poised: nobody is stuck sending,
+       nobody waits for a provider, nobody still has to duplicate, no run-time error is pending);
+       (2) every message left in a buffer is positive; (3) if every channel provided by a remaining
+       process, or by a remaining message that carries channels, has a client object, then no process
+       remains at all.  So the survivors are exactly the providers whose chain of clients ends at a
+       top-level channel nobody uses (a poised top-level negative provider, or a top-level result
+       carrying channels that nobody consumes).  Dropping a channel is covered: the droppable
+       forward / GC request reach the provider, which propagates the request to everything it
+       depends on and ends (C02_example_runs: 0 processes left after `drop s`);
      * C02_progress_run_partial : the same for the configuration in which a run of an accepted
-       program of the fragment ends — premises teq_ok, tc_annotations_typed, topo_reachable.
+       closed program ends — premises teq_ok, tc_annotations_typed, topo_reachable;
      * C02_progress_sync_partial / C02_progress_sync_run_partial : synchronous mode (nothing is ever
        buffered): every survivor is blocked on its OWN provider channel, receiving (poised) or
        sending a positive message (offering a result nobody takes); if each of these channels has a
        client, nobody survives.
-     Dropping a channel is covered: the droppable forward / GC request reach the provider, which
-     propagates the request to everything it depends on and ends — by (1) no such forward and no
-     reclaimed provider is left at quiescence (C02_example_runs: 0 processes left after `drop s`).
-   NOT proved: contraction (split / DUP / several provider names) and the non-polarized mode:
-   covered by the correspondence run only. *)
+   NOT proved: the non-polarized mode; the premises teq_laws and topo_reachable (the latter is false
+   for programs whose top-level processes use each other cyclically: finding F29, fixed in /repo). *)
 From stdpp Require Import gmap strings.
 Require Import Grits.Base Grits.ModeDefs Grits.Modes Grits.STypes Grits.Forms Grits.Subst Grits.TcDeps Grits.Expand
                Grits.Tc Grits.TcTop Grits.Runtime Grits.spec.RtTyping Grits.spec.Topo
